@@ -59,6 +59,9 @@ func rewriteArch(enc *errorspb.EncodedError, arch string, shift int64) (n int) {
 
 func runC11(c *core.Ctx) {
 	g := gen.New(c.R)
+	if c.Case%8 == 6 {
+		g.Str = gen.RegularBin // texts with a byte sequence that is not valid UTF-8 (the comparison is differential)
+	}
 	var t *gen.Node
 	if c.Case < gen.SweepSize() {
 		t = g.Sweep(c.Case)
